@@ -149,7 +149,7 @@ type Task struct {
 	mapCtr    map[int]int // per-request counters of map-order decisions (task-local, so a task's orders do not depend on its neighbours)
 }
 
-const DefaultFuel = 10_000_000
+const DefaultFuel = 10000000
 
 type fuelExhausted struct{ site int }
 
